@@ -1,4 +1,10 @@
-(* Crypto.v — key selection, rotation and value formats of encrypt.Filter (C16).
+(* RED RECORD (not part of the development, not built by any check): the model of Crypto.v AS IT WAS before the repair
+   "fix: resolve an event's hmac salt and info together with its derived wrapper", in which an event with per-event
+   wrapper info but nil salt / info read the filter's salt / info at EACH value, and the refutation of "each value is
+   protected wholly with either the old or the new key" that this faithful model allowed (reproduced on the code by
+   encrypth -crypto, case "callback-rotation": see C16_eventfallback_before.txt).
+   Compile standalone:  coqc -R ../../coq Verif C16_event_fallback_as_was.v *)
+(* as-was copy of Crypto.v — key selection, rotation and value formats of encrypt.Filter (C16).
    Mirrors filter.go (Rotate, the RotateWrapper and EventWrapperInfo branches of Process, encrypt, hmacSha256) and
    wrapper.go (NewEventWrapper).  Keys are an abstract type K; AEAD, per-event wrapper derivation, HKDF and HMAC are
    Section functions; byte strings are lists of N below 256.  No proofs here. *)
@@ -37,7 +43,6 @@ Section Crypto.
   Record fstate := { f_wrap : option K; f_salt : option bstr; f_info : option bstr }.
 
   Definition orelse {A} (a b : option A) : option A := match a with Some _ => a | None => b end.
-  Definition nonnil (b : option bstr) : bstr := match b with Some x => x | None => [] end.
 
   (* Rotate(opts...) and the RotateWrapper branch of Process: every non-nil component replaces the filter's *)
   Definition rotate (st : fstate) (w : option K) (s i : option bstr) : fstate :=
@@ -56,16 +61,14 @@ Section Crypto.
     | None => match f_wrap st with Some _ => Some no_opts | None => None end
     | Some (id, s, i) =>
         match f_wrap st, id with
-        | Some w, _ :: _ =>
-            (* the salt and info in force for the event are resolved here, under the same read lock that derives its
-               wrapper: the payload's when given, else a (non-nil) copy of the filter's *)
-            Some {| o_wrap := Some (derive w id); o_salt := Some (nonnil (orelse s (f_salt st))); o_info := Some (nonnil (orelse i (f_info st))) |}
+        | Some w, _ :: _ => Some {| o_wrap := Some (derive w id); o_salt := s; o_info := i |}
         | _, _ => None                                 (* missing wrapper / missing event id *)
         end
     end.
 
   (* encrypt() / hmacSha256(), under Filter.l: which wrapper, salt and info *)
   Definition sel_wrap (st : fstate) (o : evopts) : option K := orelse (o_wrap o) (f_wrap st).
+  Definition nonnil (b : option bstr) : bstr := match b with Some x => x | None => [] end.
   Definition sel_salt (st : fstate) (o : evopts) : bstr := nonnil (orelse (o_salt o) (f_salt st)).
   Definition sel_info (st : fstate) (o : evopts) : bstr := nonnil (orelse (o_info o) (f_info st)).
 
@@ -176,3 +179,37 @@ Arguments o_salt {K} _.
 Arguments o_info {K} _.
 Arguments cs_f {K} _.
 Arguments cs_thr {K} _.
+
+Open Scope N_scope.
+(* ---------- a concrete instance: non-vacuity, and the one mixture the interleaving model allows ---------- *)
+Definition tK := N.
+Definition t_enc (k : tK) (rnd m : bstr) : bstr := (k mod 256)%N :: rnd ++ m.
+Definition t_dec (k : tK) (blob : bstr) : option bstr :=
+  match blob with b :: r => if N.eqb b (k mod 256) then Some (skipn 2 r) else None | [] => None end.
+Definition t_derive (k : tK) (id : bstr) : tK := (k * 1000 + fold_left N.add id 0%N)%N.
+Definition t_hkdf (k : tK) (s i : bstr) : bstr := (k mod 256)%N :: s ++ 0%N :: i.
+Definition t_hmac (key data : bstr) : bstr := key ++ data.
+
+Definition st0 : fstate tK := {| f_wrap := Some 1%N; f_salt := Some [7]%N; f_info := None |}.
+Definition hist : list (op tK) :=
+  [OEvent tK None [(CEnc [9; 9]%N, [0; 255; 128]%N); (CHmac, []%N)];
+   ORotate tK (Some 2%N) None (Some [5]%N);
+   OEvent tK (Some ([3]%N, None, Some [4]%N)) [(CHmac, [1]%N)];
+   ORotPayload tK None (Some [8]%N) None;
+   OEvent tK None [(CHmac, [1]%N)];
+   OEvent tK (Some ([]%N, None, None)) [(CHmac, [1]%N)]].
+
+(* An event WITH per-event wrapper info but WITHOUT its own salt keeps the wrapper derived from the base key it saw when
+   it started and falls back to the filter's salt at the time of each value: a rotation of wrapper and salt scheduled
+   between its start and a value gives that value the OLD derived wrapper with the NEW salt.  (value_atomic describes
+   this exactly; value_atomic_plain / value_atomic_event_info are the cases in which the triple is consistent.) *)
+Example ewi_fallback_mixes_refuted :
+  exists (sched : list (action tK)) (k : nat),
+    nth_error (snd (crun tK t_enc t_derive t_hkdf t_hmac {| cs_f := st0; cs_thr := [] |} sched)) k
+      = Some (Some (value_under tK t_enc t_hkdf t_hmac (t_derive 1 [3]%N, [8]%N, []%N) CHmac [1]%N)) /\
+    key_in_force tK t_derive st0 (Some ([3]%N, None, None)) = Some (t_derive 1 [3]%N, [7]%N, []%N) /\
+    key_in_force tK t_derive (rotate tK st0 (Some 2%N) (Some [8]%N) None) (Some ([3]%N, None, None)) = Some (t_derive 2 [3]%N, [8]%N, []%N).
+Proof.
+  exists [AStart tK 1%N (Some ([3]%N, None, None)); ARot tK (Some 2%N) (Some [8]%N) None; AVal tK 1%N CHmac [1]%N], 2%nat.
+  repeat split; vm_compute; reflexivity.
+Qed.
